@@ -90,6 +90,8 @@ def invalid_values(ns, cls, param, default, rng):
         dim = default.value.dimensionality
         other = ns.SourceValue(1 * u.kg) if dim != u.kg.dimensionality else ns.SourceValue(1 * u.s)
         out.append(("wrong-dimension", other))
+        # a null amount of something else is still something else (0 kg is not a duration)
+        out.append(("wrong-dimension", ns.SourceValue(0 * u.kg) if dim != u.kg.dimensionality else ns.SourceValue(0 * u.s)))
         if param not in cls.attributes_that_can_have_negative_values():
             out.append(("negative", ns.SourceValue(-(abs(default.value.magnitude) + 1) * default.value.units)))
         out.append(("wrong-type:number", 3.0))
